@@ -3,10 +3,10 @@ CONSTANTS
   Counters = {"c", "d"}
   Gauges = {"g"}
   UpDowns = {"u"}
-  Hists = {"h"}
+  Hists = {}
   Stores = {"s"}
-  MaxCount = 5
-  MaxNet = 2
+  MaxCount = 3
+  MaxNet = 1
   Vals = {1, 2}
   MaxGen = 1
   Threads = {}
